@@ -682,7 +682,44 @@ impl<'a> Gen<'a> {
                 // vs shared ones): equal? must not depend on how its arguments were produced
                 let vs = self.slots_where(|k| matches!(k, Kind::Vec { .. }));
                 let ps = self.slots_where(|k| matches!(k, Kind::Pair { proper: true, .. }));
-                if !vs.is_empty() && self.rng.chance(1, 3) {
+                if !ps.is_empty() && self.rng.chance(1, 4) {
+                    // one argument holds the SAME list object twice, the other a fresh copy followed by a near
+                    // twin that agrees with it on a prefix only (longer by one element, or shorter): a comparison
+                    // that remembers visited tails of one side only would answer #t (seed C14d-1)
+                    let t = *self.rng.pick(&ps);
+                    self.push("cons", vec![Arg::Pool(t), Arg::Pool(t)]);
+                    let shared = self.n() - 1;
+                    self.push("append", vec![Arg::Pool(t), Arg::Nil]);
+                    let copy = self.n() - 1;
+                    let twin = match self.rng.below(3) {
+                        0 => {
+                            let k = self.key();
+                            self.push("list", vec![k]);
+                            let tail = self.n() - 1;
+                            self.push("append", vec![Arg::Pool(t), Arg::Pool(tail)]);
+                            self.n() - 1
+                        }
+                        1 => {
+                            self.push("reverse", vec![Arg::Pool(t)]);
+                            let r = self.n() - 1;
+                            self.push("cdr", vec![Arg::Pool(r)]);
+                            let r2 = self.n() - 1;
+                            self.push("reverse", vec![Arg::Pool(r2)]);
+                            self.n() - 1
+                        }
+                        _ => {
+                            self.push("append", vec![Arg::Pool(t), Arg::Nil]);
+                            self.n() - 1
+                        }
+                    };
+                    self.push("cons", vec![Arg::Pool(copy), Arg::Pool(twin)]);
+                    let unshared = self.n() - 1;
+                    if self.rng.chance(1, 2) {
+                        self.push(name, vec![Arg::Pool(unshared), Arg::Pool(shared)])
+                    } else {
+                        self.push(name, vec![Arg::Pool(shared), Arg::Pool(unshared)])
+                    }
+                } else if !vs.is_empty() && self.rng.chance(1, 3) {
                     let v = *self.rng.pick(&vs);
                     self.push("vector->list", vec![Arg::Pool(v)]);
                     let l = self.n() - 1;
